@@ -10,6 +10,7 @@
 package main
 
 import (
+	"bytes"
 	"context"
 	"crypto/rand"
 	"encoding/binary"
@@ -19,6 +20,7 @@ import (
 	"io"
 	"os"
 	"runtime"
+	"runtime/pprof"
 	"sort"
 	"strconv"
 	"strings"
@@ -613,6 +615,55 @@ func redisStore(ctx context.Context) storage.Storage {
 	return s
 }
 
+// ------------------------------------------------------------------ heartbeat liveness
+
+var caseSerial int
+
+// hbState looks for the heartbeat goroutine carrying the given pprof label.
+func hbState(label string) (present, waiting bool) {
+	var buf bytes.Buffer
+	pprof.Lookup("goroutine").WriteTo(&buf, 1)
+	needle := `"verifhb":"` + label + `"`
+	for _, blk := range strings.Split(buf.String(), "\n\n") {
+		if strings.Contains(blk, needle) && strings.Contains(blk, "heartbeatLoop") {
+			present = true
+			if strings.Contains(blk, "selectgo") {
+				waiting = true
+			}
+		}
+	}
+	return
+}
+
+// hbAlive: the heartbeat goroutine of a claim is alive if it shows up in two goroutine profiles
+// taken 300 us apart (a goroutine whose ctx is already cancelled leaves its select at once and is
+// gone), dead if it is missing from five consecutive profiles (a single profile can miss a goroutine
+// that was created a moment ago).
+func hbAlive(label string) bool {
+	t0 := time.Now()
+	present, absent := 0, 0
+	for {
+		p, _ := hbState(label)
+		if p {
+			present++
+			absent = 0
+			if present >= 2 {
+				return true
+			}
+		} else {
+			absent++
+			present = 0
+			if absent >= 5 {
+				return false
+			}
+		}
+		if time.Since(t0) > 300*time.Millisecond {
+			return p
+		}
+		time.Sleep(300 * time.Microsecond)
+	}
+}
+
 // ------------------------------------------------------------------ executor
 
 type env struct {
@@ -795,7 +846,8 @@ func (e *env) runThread(th *thread, barrier func()) {
 	own, ownKind := "", -1
 	var alloc, released *node.NodeIDAllocator
 	var firstCtx context.Context
-	var firstCancel context.CancelFunc
+	var firstCancel, hbCancel context.CancelFunc
+	hbLabel, hbSerial := "", 0
 	if len(th.ops) > 0 && th.ops[0].code == 'g' && th.ops[0].kind == nodeKind {
 		// everything except the allocation itself happens before the barrier
 		alloc = node.NewNodeIDAllocator(e.instStore(th.inst))
@@ -814,8 +866,20 @@ func (e *env) runThread(th *thread, barrier func()) {
 					ctx, cancel = context.WithCancel(e.ctx)
 				}
 				firstCtx, firstCancel = nil, nil
-				id, err := alloc.AllocateNodeID(ctx)
-				cancel() // the heartbeat goroutine is driven explicitly through `w`
+				// The caller's ctx stays live for as long as the node "runs" (until its Release or the
+				// end of the case).  The heartbeat goroutine started by the claim inherits the pprof
+				// label, so that its liveness can be observed; its 30 s ticker is driven by `w`.
+				hbSerial++
+				label := fmt.Sprintf("c%d-t%d-n%d", caseSerial, th.tid, hbSerial)
+				var id string
+				var err error
+				pprof.Do(ctx, pprof.Labels("verifhb", label), func(lctx context.Context) {
+					id, err = alloc.AllocateNodeID(lctx)
+				})
+				if hbCancel != nil {
+					hbCancel()
+				}
+				hbLabel, hbCancel = label, cancel
 				if err != nil {
 					if id == "" && strings.Contains(err.Error(), "no available node ID") {
 						g.ev(fmt.Sprintf("exh.%d.%d", th.tid, o.kind))
@@ -875,13 +939,26 @@ func (e *env) runThread(th *thread, barrier func()) {
 			}
 			var err error
 			if o.code == 'w' {
+				// the holder's heartbeat ticker fires: the renewal happens iff the heartbeat goroutine
+				// of this claim is still running (the renewal itself is the loop's own renewNodeID)
+				g.enter()
+				if !hbAlive(hbLabel) {
+					g.ev(fmt.Sprintf("dead.%d.%d.%s", th.tid, ownKind, own))
+					continue
+				}
+				th.pass = true
 				err = alloc.VerifRenew()
+				th.pass = false
 				if err == nil {
 					g.ev(fmt.Sprintf("rnw.%d.%d.%s", th.tid, ownKind, own))
 				}
 			} else {
 				if ownKind == nodeKind {
 					err = alloc.Release()
+					if hbCancel != nil {
+						hbCancel() // the node stops
+						hbCancel = nil
+					}
 					if err == nil {
 						released = alloc // kept for late second releases
 					} else {
@@ -952,6 +1029,7 @@ func (e *env) universe() [][2]uint64 {
 }
 
 func execCase(cs string) (obs string) {
+	caseSerial++
 	k, ok := parseCase(cs)
 	if !ok {
 		return "bad-case"
